@@ -31,6 +31,28 @@ chk("C14", "exploration",
     "Every derivation of a bounded grammar per decoded type (SIP/SIPS URI, Via, From, To, Route, Record-Route, Request-URI, CSeq) on the real Parse*/String pairs: decode->encode compared component-wise with the generator's abstract value through an independent reader, encode-decode-encode idempotence, accessor values equal the denoted components. IPv6 references and user parts with ';'/'?' are generated and tracked as known findings.",
     TRUST, "exhaustive enumeration of grammar derivations (pure functions), round-trip and accessor laws", "§4 C14")
 
+chk("C01", "exploration",
+    "Two complete products on fresh simulated worlds: (A) content - all sequences of 0-2 (thorough 0-3) extension headers over an 18-shape alphabet x position x 7 body classes (up to 60 KiB of all byte values) x Content-Length spelling x {request to backend, response, request by Route over TCP}; (B) paths - {backend, Route, static, response} x arrival x departure transport x listener configuration x 14 Request-URI forms x methods/status codes; the emission is decoded by an independent reader and compared field by field (name bytes, value, multiplicity, order), single Content-Length = body bytes, body identical, exactly one emission.",
+    TRUST, "exhaustive small-scope input enumeration on the real code in a deterministic simulation, independent reader as oracle", "§4 C01")
+chk("C02", "model_checking",
+    "(inputs) complete product over the routing Via entry (transport x host x port x received x rport forms x parameters, plus undecodable shapes) x further entries x EVERY layout x name spelling x status class x arrival transport; (histories) explicit-state BFS by replay over three concurrent transactions (UDP/TCP user agents and backends, 180/200/retransmissions in every order) to depth 6 (thorough 8) with received-support on/off: each relayed response must reach the hop that sent the request with exactly the Via stack that hop sent.",
+    TRUST + " BFS successors by replay on fresh worlds; state key = model state + transport table + dialog table + rotation cursor.",
+    "exhaustive input enumeration + explicit-state BFS over event histories on the real code", "§4 C02")
+chk("C06", "exploration",
+    "Complete product: path x how the next hop was learned (7 learning histories incl. through the other listens entry and re-learning) x must-record-route x listener set x 0-4 (0-6) Via entries in layouts x 0-3 (0-4) Record-Route entries in layouts x header positions; oracle: exactly one new top Via naming the (learned) listener with a fresh z9hG4bK branch, existing entries intact beneath, Record-Route by policy; plus a 20000-request freshness run through one world.",
+    TRUST + " uuid randomness replaced by a deterministic bijective stream, so a repeated branch cannot be a chance event.",
+    "exhaustive small-scope enumeration of inputs x learning histories on the real code", "§4 C06")
+chk("C07", "exploration",
+    "Complete product through the REAL main() and a YAML file: no-received {absent,false,true} x arrival {UDP, accepted TCP, TCP connection dialled by the proxy to a backend} x true source vs Via sent-by x rport {absent, valueless, spoofed} x received {absent, spoofed} x Via layout x path; then the next hop answers and the response is followed to the packet's true source (address/port or connection).",
+    TRUST + " Configuration wiring is exercised because the world is started by the program's own main().",
+    "exhaustive configuration x input enumeration through the real entry point in a deterministic simulation", "§4 C07")
+chk("C16", "exploration",
+    "All assignments of Call-ID x tags x URIs from small alphabets (equal URIs, equal tags, '-' inside values, tel/urn), each in both orientations, as request and response, with every decoration (thorough: every subset): the partition induced by GetDialog() must equal the partition induced by the reference key - decided for all ~10^10 pairs by hashing both keys.",
+    TRUST, "exhaustive enumeration, partition comparison against a reference key", "§4 C16")
+chk("C17", "exploration",
+    "Metamorphic: 10 scenarios (all relaying paths, pin by response, in-dialog request, pin lifetime by Expires, NOTIFY terminated, SUBSCRIBE response) x every single respelling of every header of the subject message (thorough: every pair) x every re-layout of the Via/Route/Record-Route lists; base and variant runs on identically prepared worlds must agree on all destinations (incl. follow-up probes of the pin), decoded routing stacks, remaining fields, Content-Length and body.",
+    TRUST, "exhaustive enumeration of spelling/layout variants, differential (metamorphic) oracle on the real code", "§4 C17")
+
 ALL = ["C%02d" % i for i in range(1, 21)]
 man = {
     "version": 1,
